@@ -306,6 +306,9 @@ func emptyCall(c *emptyCell) (res error, bad error) {
 			}
 		} else if c.Carrier == "tag" {
 			st = emptyTagType(ft, tagName, joined)
+		} else if c.API == "overtag" {
+			// the rule map overrides a field that already has a (never firing) tag rule of its own
+			st = emptyTagType(ft, tagName, "le=1000000000|zzdecoy")
 		} else {
 			st = emptyKinds[c.Kind].holder
 		}
@@ -338,7 +341,7 @@ func emptyCall(c *emptyCell) (res error, bad error) {
 			}
 		} else {
 			switch c.API {
-			case "", "canon":
+			case "", "canon", "overtag":
 				return valid.Struct(obj.Interface(), rm), nil
 			case "value":
 				return valid.Struct(obj.Elem().Interface(), rm), nil
